@@ -1011,3 +1011,91 @@ pub fn run_template_history(sb: &mut Sandbox, refs: &Refs, h: &TemplateHistory) 
     }
     ev
 }
+
+// ------------------------------------------------------------------ free-public-input sweeps (C16)
+
+/// Deviation specs for the stand-in circuits: lists of (public-input index, value).
+pub fn free_pi_specs(layer: &str, n: usize, rng: &mut Rng, extra: usize) -> Vec<Vec<(usize, u64)>> {
+    let len = if layer == "leaf" { 21 } else { 21 * n + 8 };
+    let big = 0xFFFF_FFFF_0000_0000u64; // p - 1
+    let mut v: Vec<Vec<(usize, u64)>> = vec![vec![]];
+    // every single position, small and large
+    for i in 0..len {
+        v.push(vec![(i, 1)]);
+        v.push(vec![(i, if layer == "leaf" && (i <= 3 || i == 20) { 1 << 31 } else { big })]);
+    }
+    if layer == "leaf" {
+        // a non-sentinel field together with a sentinel one; two sentinel fields
+        v.push(vec![(3, 10), (15, 1)]);
+        v.push(vec![(5, 77), (0, 1)]);
+        v.push(vec![(1, 5), (16, 1)]);
+        v.push(vec![(12, 3), (19, 9)]);
+    } else {
+        // the self-declared slot count lowered or raised, alone and together with every slot position
+        for h in [0u64, 1, (2 * n) as u64 - 1, (2 * n) as u64 + 1, big] {
+            v.push(vec![(0, h)]);
+            for i in 8..8 + 10 * n {
+                v.push(vec![(0, h), (i, 7)]);
+            }
+            v.push(vec![(0, h), (3, 1)]);
+        }
+        v.push(vec![(1, 1), (8, 5)]);
+        v.push(vec![(2, 10), (8 + 10 * n - 1, 1)]);
+    }
+    for _ in 0..extra {
+        let k = 1 + rng.usize(3);
+        v.push((0..k).map(|_| (rng.usize(len), *rng.pick(&[1u64, 7, 1 << 31, big]))).collect());
+    }
+    v
+}
+
+/// The sentinel positions of a template's public inputs (what must be zero).
+pub fn sentinel_positions(layer: &str, n: usize) -> Vec<usize> {
+    if layer == "leaf" {
+        // asset(0) out1(1) out2(2) exit1(8..12) exit2(12..16) block_hash(16..20)
+        let mut p = vec![0, 1, 2];
+        p.extend(8..20);
+        p
+    } else {
+        // block_hash(3..7) and the 2n exit slots of 5 felts each (8..8+10n)
+        let mut p: Vec<usize> = (3..7).collect();
+        p.extend(8..8 + 10 * n);
+        p
+    }
+}
+
+/// Run one chunk of specs in a child and judge it: acceptance of a template whose public inputs are
+/// non-zero in a sentinel position is a finding; the unmodified vector must be accepted (precondition).
+pub fn run_free_pi_chunk(sb: &mut Sandbox, layer: &str, n: usize, m: usize, specs: &[Vec<(usize, u64)>]) -> HistoryEval {
+    let mut ev = HistoryEval::default();
+    let fs = sb.reset();
+    let js: Vec<serde_json::Value> = specs.iter().map(|sp| json!(sp.iter().map(|(i, x)| json!([i, x])).collect::<Vec<_>>())).collect();
+    let run = sb.run_child(ChildSpec { action: "free_pi_sweep".into(), args: args_of(&[("dir", json!(fs.to_string_lossy())), ("layer", json!(layer)), ("n", json!(n)), ("m", json!(m)), ("specs", json!(js))]), as_limit_mb: 24 * 1024, rayon_threads: 2, ..Default::default() });
+    let Some(res) = run.result.clone() else {
+        ev.died = true;
+        return ev;
+    };
+    if res.result != "ok" {
+        ev.findings.push(("harness:free-pi-sweep-failed".into(), format!("{} {}", res.result, res.error)));
+        return ev;
+    }
+    let sent = sentinel_positions(layer, n);
+    for (sp, r) in specs.iter().zip(res.extra["results"].as_array().cloned().unwrap_or_default()) {
+        let kind = r["result"].as_str().unwrap_or("?").to_string();
+        let pis: Vec<u64> = r["public_inputs"].as_array().map(|a| a.iter().map(|x| x.as_u64().unwrap_or(0)).collect()).unwrap_or_default();
+        let verifies = r["verifies"].as_bool().unwrap_or(false);
+        ev.results.push(format!("{sp:?}:{kind}"));
+        ev.probes.inc(&format!("free_pi_{layer}_{kind}"));
+        if !verifies {
+            ev.findings.push(("harness:free-pi-template-does-not-verify".into(), format!("{sp:?}")));
+        }
+        if sp.is_empty() && kind != "ok" {
+            ev.findings.push(("harness:free-pi-genuine-rejected".into(), format!("the {layer}-layer object constructor rejected the all-sentinel template of the stand-in circuit ({kind})")));
+        }
+        let bad: Vec<usize> = sent.iter().copied().filter(|i| pis.get(*i).copied().unwrap_or(0) != 0).collect();
+        if kind == "ok" && !bad.is_empty() {
+            ev.findings.push(("load:bad-template-accepted".into(), format!("the {layer}-layer object constructor (n={n}, m={m}) accepted a VERIFYING template whose public inputs are non-zero at sentinel position(s) {bad:?} (deviation {sp:?})")));
+        }
+    }
+    ev
+}
